@@ -431,6 +431,8 @@ pub struct Stats {
     pub getrandom_calls: u64,
     pub clock_reads_by_sut: u64,
     pub getpid_calls_by_sut: u64,
+    pub epochs_private_fs: u64,
+    pub epochs_shared_fs: u64,
     pub fs_leftovers: u64,
     pub pred_pairs: BTreeSet<u64>,
     pub interleavings: BTreeSet<u64>,
@@ -476,6 +478,8 @@ impl Stats {
         self.getrandom_calls += o.getrandom_calls;
         self.clock_reads_by_sut += o.clock_reads_by_sut;
         self.getpid_calls_by_sut += o.getpid_calls_by_sut;
+        self.epochs_private_fs += o.epochs_private_fs;
+        self.epochs_shared_fs += o.epochs_shared_fs;
         self.fs_leftovers += o.fs_leftovers;
         self.pred_pairs.extend(o.pred_pairs);
         self.interleavings.extend(o.interleavings);
@@ -566,6 +570,13 @@ impl Stats {
                                 self.jobs_panicked_own += 1
                             }
                             _ => self.jobs_completed += 1,
+                        }
+                    }
+                    "disk" => {
+                        if ev["private_mounts"].as_bool().unwrap_or(false) {
+                            self.epochs_private_fs += 1;
+                        } else {
+                            self.epochs_shared_fs += 1;
                         }
                     }
                     "end" => {
@@ -814,6 +825,10 @@ pub fn search(cfg: &SearchConfig, w: &Workload, refs: &References) -> SearchResu
                                         });
                                     } else {
                                         det_mismatch_harness.fetch_add(1, Ordering::SeqCst);
+                                        if std::env::var_os("SESSIM_DEBUG_DET").is_some() {
+                                            let _ = std::fs::write(cfg.scratch_base.join(format!("det-{i}-a.log")), log.raw());
+                                            let _ = std::fs::write(cfg.scratch_base.join(format!("det-{i}-b.log")), log2.raw());
+                                        }
                                         errors.lock().unwrap().push(format!("run {i}: scheduling events differ between two executions of one plan"));
                                     }
                                     stop.store(true, Ordering::SeqCst);
